@@ -21,7 +21,7 @@ RULE = (
     "a state is (model, config, number of steps simulated so far, checkpoint variant); transitions are integrate calls"
 )
 REQUIRED_COVER = ["non_default_delta_t", "overlap_sample", "state_reads_current", "first_part_is_1", "last_part_is_1", "all_ones", "prod_gt_steps_with_return_states", "exact_factorisation",
-                  "manual_stepper", "clamp", "synapse_model", "synaptic_state_clamped_on_second_type", "fwd_euler"]
+                  "manual_stepper", "clamp", "synapse_model", "synaptic_state_clamped_on_second_type", "no_external_inputs", "fwd_euler"]
 ASSUMPTIONS = [
     "tolerance 1e-8 relative: programs of different scan length / checkpoint layout are fused differently and round-off (1e-16) is amplified by up to 1e6 through an action-potential upstroke at dt = 0.05; a wrong state, input slice or time step is off by >= 1e-4",
     "runs are 4-5 steps long; longer runs are not explored",
@@ -40,6 +40,9 @@ CONFIGS = {
     # integrate and the public step function must both translate the edge index (seeded change S64)
     "net_syn_synclamp": {"model": "net_syn", "stim": lambda m: m.cell(0).branch(0).comp(0), "clamp": ("TestSynapse_c", lambda m: m.TestSynapse.edge(0)),
                          "schemes": ["bwd_euler"]},
+    # no stimulus, no clamp, nothing data-fed: the run length comes from t_max alone (the zero-padding / surplus-step masking of
+    # over-long checkpoint layouts then has no external input to hang on to; seeded change S84)
+    "cell_hh_leak_noinput": {"model": "cell_hh_leak", "stim": None, "clamp": None, "schemes": ["bwd_euler"]},
     # a channel whose update reads a membrane current: the current entries of the returned state matter
     "cell_pump": {"stim": lambda m: m.branch(0).comp(0), "clamp": ("CaL_q", lambda m: m.branch(1).comp(0)),
                   "schemes": ["bwd_euler"]},
@@ -82,6 +85,8 @@ def _inputs(m, model_name, lo, hi, n):
     import jax.numpy as jnp
 
     cfg = CONFIGS[model_name]
+    if cfg["stim"] is None:
+        return None, None
     stim = models.stim_series(n, 1)[lo:hi]
     ds = cfg["stim"](m).data_stimulate(jnp.asarray(stim))
     cname, cview = cfg["clamp"]
@@ -95,6 +100,8 @@ def _integrate(m, model_name, lo, hi, n, scheme, backend, ck, all_states, dt=0.0
 
     ds, dc = _inputs(m, model_name, lo, hi, n)
     kw = {} if dt == 0.025 else {"delta_t": dt}  # the default time step is passed implicitly, any other explicitly
+    if ds is None:
+        kw["t_max"] = (hi - lo - 1) * dt + dt / 2  # hi - lo steps
     recs, st = jx.integrate(m, data_stimuli=ds, data_clamps=dc, solver=scheme, voltage_solver=backend,
                             checkpoint_lengths=ck, all_states=all_states, return_states=True, **kw)
     return np.asarray(recs), st
@@ -109,9 +116,9 @@ def _manual(m, model_name, n, scheme, backend, dt=0.025):
     m.to_jax()
     init_fn, step_fn = build_init_and_step_fn(m, voltage_solver=backend, solver=scheme)
     states, params = init_fn([], None, None, dt)
-    inds = {"i": ds[2].index.to_numpy(), dc[0]: dc[2].index.to_numpy()}
+    inds = {} if ds is None else {"i": ds[2].index.to_numpy(), dc[0]: dc[2].index.to_numpy()}
     for k in range(n):
-        ext = {"i": jnp.asarray(ds[1])[:, k], dc[0]: jnp.asarray(dc[1])[:, k]}
+        ext = {} if ds is None else {"i": jnp.asarray(ds[1])[:, k], dc[0]: jnp.asarray(dc[1])[:, k]}
         states = step_fn(states, params, ext, inds, dt)
     return {k: np.asarray(v) for k, v in states.items()}
 
@@ -168,6 +175,8 @@ def run_config(model_name, scheme, backend, n, variants, comps=None, dt=0.025):
         out["cover"].append("synapse_model")
     if model_name == "net_syn_synclamp":
         out["cover"].append("synaptic_state_clamped_on_second_type")
+    if CONFIGS[model_name]["stim"] is None:
+        out["cover"].append("no_external_inputs")
     if model_name == "cell_pump":
         out["cover"].append("state_reads_current")
     if scheme == "fwd_euler":
